@@ -211,6 +211,20 @@ def judge_unknown_version(ctx, case):
         return None
     xk = bridge.xkey_from_case(case)
     bad = []
+    # read-only looking queries first (in a case-dependent order); afterwards the version must STILL be unknown
+    queries = [lambda: Version.valid_version(version=ver), lambda: Version.bip(version=ver),
+               lambda: ver in Version.mainnet_versions() + Version.testnet_versions(),
+               lambda: ver in Version.prv_versions() + Version.pub_versions()]
+    for q in (queries if ver & 1 else queries[::-1]):
+        try:
+            q()
+        except Exception:  # noqa
+            pass
+    try:
+        if Version.valid_version(version=ver):
+            bad.append(("valid_version.true_after_queries", False, True))
+    except Exception:  # noqa
+        pass
     try:
         v = Version.parse(version_int=ver)
         bad.append(("Version.parse.accepted", "raise", str((v.key_type, v.bip_type, v.testnet))))
